@@ -46,7 +46,7 @@ theorem lg_raiseSig (st : St) (s : Int) : LogExt st (raiseSig st s) := by
   · split
     · exact LogExt.of_eq rfl
     · split
-      · exact LogExt.of_eq rfl
+      · unfold sigRecord; split <;> first | exact LogExt.of_eq rfl | exact LogExt.refl _
       · split
         · exact LogExt.of_eq rfl
         · exact LogExt.refl st
@@ -142,11 +142,27 @@ theorem lg_ensureSigchld (st : St) : LogExt st (ensureSigchld st) := by
   · exact (lg_watchSignal _ _ _ _).trans (LogExt.of_eq rfl)
 
 
+theorem lg_setNotify (st : St) (a : Nat) (n : Option Nat) : LogExt st (setNotify st a n) := by
+  unfold setNotify
+  exact lg_setW st a { st.getW a with notify := n }
+
+theorem lg_linkNotified (r : St × Nat) (a : Nat) (flags : Nat) : LogExt r.1 (linkNotified r a flags) := by
+  unfold linkNotified
+  exact ((lg_setNotify r.1 a (some r.2)).trans (lg_insertWatch _ _ _ _)).trans (lg_with_procs _ _)
+
+theorem lg_clearNotify (st : St) (a : Nat) : LogExt st (clearNotify st a) := by
+  unfold clearNotify
+  split
+  · exact lg_setNotify st a none
+  · exact LogExt.refl _
+
 theorem lg_linkProcess (st : St) (a : Nat) (pid : Int) (flags : Nat) : LogExt st (linkProcess st a pid flags) := by
   unfold linkProcess
   simp only []
   split
-  · exact ((lg_waitpid _ _).trans (lg_setWstatus _ _ _)).trans (lg_watchLater _ _ _ _)
+  · split
+    · exact (((lg_waitpid _ _).trans (lg_setWstatus _ _ _)).trans (lg_watchLater _ _ _ _)).trans (lg_linkNotified _ _ _)
+    · exact ((lg_waitpid _ _).trans (lg_setWstatus _ _ _)).trans (lg_watchLater _ _ _ _)
   · exact ((lg_waitpid _ _).trans (lg_insertWatch _ _ _ _)).trans (lg_with_procs _ _)
 
 
@@ -191,8 +207,18 @@ theorem lg_cancelFound (st : St) (a : Nat) (w : Watch) (l : List Nat) : LogExt s
   exact ((((lg_setListOf st _ _).trans (lg_cancelNotify _ a w)).trans (lg_cancelHook _ w.type w.evi)).trans (lg_free _ a)).trans
     (lg_cancelRest _ _)
 
-theorem lg_watchCancel (st : St) (a : Nat) : LogExt st (watchCancel st a) := by
-  unfold watchCancel
+theorem lg_cancelDetached (st : St) (a : Nat) : LogExt st (cancelDetached st a) := by
+  unfold cancelDetached
+  exact (lg_cancelNotify st a _).trans (lg_setW _ _ _)
+
+theorem lg_laterPre (st : St) (a : Nat) : LogExt st (laterPre st a) := by
+  unfold laterPre
+  split
+  · exact (lg_setW _ _ _)
+  · exact LogExt.refl _
+
+theorem lg_watchCancel0 (st : St) (a : Nat) : LogExt st (watchCancel0 st a) := by
+  unfold watchCancel0
   split
   · exact LogExt.refl st
   · split
@@ -202,9 +228,19 @@ theorem lg_watchCancel (st : St) (a : Nat) : LogExt st (watchCancel st a) := by
       · split
         · exact (lg_fail st _)
         · split
-          · exact LogExt.refl st
+          · split
+            · exact lg_cancelDetached st a
+            · exact LogExt.refl st
           · exact lg_cancelFound st a _ _
 
+
+theorem lg_watchCancel (st : St) (a : Nat) : LogExt st (watchCancel st a) := by
+  unfold watchCancel
+  split
+  · split
+    · exact (lg_watchCancel0 st a).trans (lg_watchCancel0 _ _)
+    · exact lg_watchCancel0 st a
+  · exact lg_watchCancel0 st a
 
 theorem lg_with_slots (st : St) (l : List SlotRec) : LogExt st { st with slots := l } := LogExt.of_eq rfl
 
@@ -227,11 +263,13 @@ theorem lg_doRegister (st : St) (k : Int) (reg : St → St × Nat) (h : ∀ s, L
     · exact (h st).trans (lg_with_slots _ _)
 
 
+theorem lg_with_cancelReq (st : St) (l : List Int) : LogExt st { st with cancelReq := l } := LogExt.of_eq rfl
+
 theorem lg_doCancel (st : St) (k : Int) : LogExt st (doCancel st k) := by
   unfold doCancel
   split
   · exact (lg_emit _ _)
-  · exact lg_watchCancel _ _
+  · exact (lg_with_cancelReq _ _).trans (lg_watchCancel _ _)
 
 
 theorem lg_runAct (st : St) (act : Act) : LogExt st (runAct st act) := by
@@ -402,7 +440,7 @@ theorem lg_processNotify (st : St) (a : Nat) : LogExt st (processNotify st a) :=
   unfold processNotify
   split
   · exact (lg_fail _ _)
-  · exact lg_invokeWatch _ _ _ _
+  · exact (lg_clearNotify _ _).trans (lg_invokeWatch _ _ _ _)
 
 
 theorem lg_laterCb (st : St) (a : Nat) : LogExt st (laterCb st a) := by
@@ -425,10 +463,12 @@ theorem lg_laterLoopT (l : List Nat) : ∀ st : St, LogExt st (laterLoopT st l).
     · split
       · exact (lg_fail _ _)
       · split
-        · exact lg_laterCb _ _
+        · exact (lg_free _ a).trans (ih _)
         · split
-          · exact (lg_laterCb _ _).trans (lg_fail _ _)
-          · exact ((lg_laterCb _ _).trans (lg_free _ a)).trans (ih _)
+          · exact ((lg_laterPre st a).trans (lg_laterCb _ a))
+          · split
+            · exact (((lg_laterPre st a).trans (lg_laterCb _ a))).trans (lg_fail _ _)
+            · exact ((((lg_laterPre st a).trans (lg_laterCb _ a))).trans (lg_free _ a)).trans (ih _)
 
 
 theorem lg_laterLoop (l : List Nat) (st : St) : LogExt st (laterLoop st l) := lg_laterLoopT l st
@@ -636,7 +676,9 @@ theorem lg_pollTimeout (st : St) (t : Option Int) : LogExt st (pollTimeout st t)
   · exact LogExt.refl _
 
 
-theorem lg_deliverPending (st : St) : LogExt st (deliverPending st) := LogExt.of_eq rfl
+theorem lg_deliverPending (st : St) : LogExt st (deliverPending st) := by
+  unfold deliverPending
+  split <;> exact LogExt.of_eq rfl
 
 
 theorem lg_ppoll (st : St) (t : Option Int) : LogExt st (ppoll st t).1 := by
